@@ -130,6 +130,27 @@ def r_pair_eq(A, ctx, scope, rule="R-PAIR-EQ"):
     epoch_case("_bcd_epoch", "skglm.solvers.group_bcd", "QuadraticGroup", wgl2, Vec([1]), group=True)
     epoch_case("_bcd_epoch", "skglm.solvers.multitask_bcd", "QuadraticMultiTask", l21, Vec([2]), multitask=True)
 
+    # ---------------------------------------------------------------- Gram epoch
+    gfn = _func(A, "skglm.solvers.gram_cd", "_gram_cd_epoch")
+    for greedy in (False, True):
+        key = f"{gfn.fq}::greedy_cd={greedy}"
+
+        def body(greedy=greedy, key=key):
+            L, rg = fresh()
+            for a in range(P):
+                for b in range(a, P):
+                    rg.values[f"G{a}{b}"] = (1.5 if a == b else 0.2) + 0.1 * a - 0.05 * b
+            G = Mat(Vec(sym(f"G{min(a, b)}{max(a, b)}") for b in range(P)) for a in range(P))
+            w0 = Vec(sym(f"w{j}") for j in range(P))
+            g0 = Vec(sym(f"g{j}") for j in range(P))
+            rg.values["g2"] = 0.45
+            w, g = Vec(w0), Vec(g0)
+            pobj = Obj(l1, {"alpha": sym("alpha"), "positive": False})
+            L.call_function(gfn, [G, w, g, pobj, greedy])
+            Gdw = L.dot(G, _sub(L, w, w0))
+            verdict(key, gfn, [(f"grad[{i}]", R(g[i]) - R(g0[i]), Gdw[i]) for i in range(P)], rg)
+        guard(key, gfn, body)
+
     # ---------------------------------------------------------------- prox-Newton directions
     pn = "skglm.solvers.prox_newton"
     ws = Vec([2, 0])
